@@ -462,7 +462,8 @@ where
 
             let difference = &derivative - &derivative_last;
             let adjustment = -&jac_inv * difference;
-            let s_transpose = shift.clone().transpose();
+            // Conjugated: for a complex shift such as (1, i) the plain transpose times itself is zero
+            let s_transpose = shift.adjoint();
             let p = (-&s_transpose * &adjustment)[(0, 0)];
             let u = s_transpose * &jac_inv;
 
